@@ -206,6 +206,10 @@ func (conR *ConsensusReactor) Receive(chID byte, src *p2p.Peer, msgBytes []byte)
 		case *NewRoundStepMessage:
 			ps.ApplyNewRoundStepMessage(msg)
 		case *CommitStepMessage:
+			if !msg.BlockParts.IsConsistent() {
+				log.Warn("Ignoring CommitStepMessage with a malformed bit array")
+				return
+			}
 			ps.ApplyCommitStepMessage(msg)
 		case *HasVoteMessage:
 			ps.ApplyHasVoteMessage(msg)
@@ -253,6 +257,10 @@ func (conR *ConsensusReactor) Receive(chID byte, src *p2p.Peer, msgBytes []byte)
 			ps.SetHasProposal(msg.Proposal)
 			conR.conS.peerMsgQueue <- msgInfo{msg, src.Key}
 		case *ProposalPOLMessage:
+			if !msg.ProposalPOL.IsConsistent() {
+				log.Warn("Ignoring ProposalPOLMessage with a malformed bit array")
+				return
+			}
 			ps.ApplyProposalPOLMessage(msg)
 		case *BlockPartMessage:
 			ps.SetHasProposalBlockPart(msg.Height, msg.Round, msg.Part.Index)
@@ -290,6 +298,10 @@ func (conR *ConsensusReactor) Receive(chID byte, src *p2p.Peer, msgBytes []byte)
 		}
 		switch msg := msg.(type) {
 		case *VoteSetBitsMessage:
+			if !msg.Votes.IsConsistent() {
+				log.Warn("Ignoring VoteSetBitsMessage with a malformed bit array")
+				return
+			}
 			cs := conR.conS
 			cs.mtx.Lock()
 			height, votes := cs.Height, cs.Votes
